@@ -129,10 +129,10 @@ Fixpoint scan_args (exists_ : list N -> bool) (args : list (list N)) : list (lis
   end.
 
 (* per library: did it fail (before looking at test outcomes), and what was executed.
-   `lib_items lib` = what discovery finds in it; `outcome_ok` = the run of the executed tests
-   reported success.  The loop stops at the first library that does not exist. *)
+   `lib_items lib` = what discovery finds in it; `outcome_ok lib` = the run of the tests
+   executed from that library reported success.  The loop stops at the first library that does not exist. *)
 Fixpoint main_m (from_item : bool) (exists_ : list N -> bool) (lib_items : list N -> list titem)
-         (outcome_ok : list titem -> bool) (pairs : list (list N * option (list N)))
+         (outcome_ok : list N -> list titem -> bool) (pairs : list (list N * option (list N)))
   : bool * list (list N * list titem) :=     (* any_fail, executed per library *)
   match pairs with
   | [] => (false, [])
@@ -142,7 +142,7 @@ Fixpoint main_m (from_item : bool) (exists_ : list N -> bool) (lib_items : list 
         let '(fail_here, ex) :=
           match runner_m from_item pat (lib_items lib) with
           | RFail => (true, [])
-          | RRan ex => (negb (outcome_ok ex), ex)
+          | RRan ex => (negb (outcome_ok lib ex), ex)
           end in
         let '(fail_rest, exs) := main_m from_item exists_ lib_items outcome_ok r in
         (fail_here || fail_rest, (lib, ex) :: exs)
